@@ -6,6 +6,7 @@ import (
 	"encoding/json"
 	"errors"
 	"fmt"
+	"io"
 	"net/http"
 	"net/http/httptest"
 	"sort"
@@ -23,6 +24,7 @@ import (
 	"github.com/trustbloc/sidetree-core-go/pkg/processor"
 	restdoc "github.com/trustbloc/sidetree-core-go/pkg/restapi/dochandler"
 	"github.com/trustbloc/sidetree-core-go/pkg/versions/1_0/txnprocessor"
+	"github.com/trustbloc/sidetree-core-go/pkg/versions/1_0/txnprovider"
 
 	"verifharness/hx"
 	"verifharness/ref"
@@ -80,7 +82,7 @@ func canonReq(b []byte) string {
 var c15Hung int32
 
 func checkC15(c *hx.Ctx) {
-	c.Rule("(1) sequences of 1-6 transactions (valid batches written by the real OperationHandler, malformed anchor strings, missing / corrupt batch files (not gzip, truncated body, damaged body, missing trailer), unknown namespace, unknown protocol version, duplicate-carrying transactions through a stub provider, hand-made batch files listing one DID twice read by the real provider) delivered in 1-3 ledger notifications to the REAL Observer goroutine (race detector on) with ONE injected fault per run enumerated over every position: each CAS file of each transaction, the store Put of each transaction; oracle over the recorded store.Put calls: per processable transaction exactly one Put holding one operation per suffix (the first) stamped with the transaction's time, number, protocol version, canonical and equivalent references, nothing for a failed one, later transactions still processed, configured unpublished operations deleted; (2) DocumentHandler.ProcessOperation over sequences of valid and refused operations with an unpublished-store Put failure / writer Add failure at every call index: refused or failed operations leave no trace in the writer and in the unpublished store, also with the REAL batch.Writer (accepting, then stopped) in front of the real in-memory queue; non-trivial = run with a fault or a failing transaction; distinct = distinct (sequence, fault)")
+	c.Rule("(1) sequences of 1-6 transactions (valid batches written by the real OperationHandler, malformed anchor strings, missing / corrupt batch files (not gzip, truncated body, damaged body, missing trailer, JSON document followed by further bytes), unknown namespace, unknown protocol version, duplicate-carrying transactions through a stub provider, hand-made batch files listing one DID twice read by the real provider) delivered in 1-3 ledger notifications to the REAL Observer goroutine (race detector on) with ONE injected fault per run enumerated over every position (a third of the sequences name alternate sources - one down, one mirroring the local CAS - so that a local read failure must NOT cost the transaction): each CAS file of each transaction, the store Put of each transaction; oracle over the recorded store.Put calls: per processable transaction exactly one Put holding one operation per suffix (the first) stamped with the transaction's time, number, protocol version, canonical and equivalent references, nothing for a failed one, later transactions still processed, configured unpublished operations deleted; (2) DocumentHandler.ProcessOperation over sequences of valid and refused operations with an unpublished-store Put failure / writer Add failure at every call index: refused or failed operations leave no trace in the writer and in the unpublished store, also with the REAL batch.Writer (accepting, then stopped) in front of the real in-memory queue; non-trivial = run with a fault or a failing transaction; distinct = distinct (sequence, fault)")
 	c.Set("race_detector_enabled", raceEnabled)
 	p := c13Proto(ref.SHA256)
 	p2 := c13Proto(ref.SHA256)
@@ -97,6 +99,7 @@ func checkC15(c *hx.Ctx) {
 			return
 		}
 		r := hx.NewRng(seeds[si], "c15")
+		withAlt := si%3 == 2
 		// ---- build the transaction sequence once (fault-free), then enumerate faults
 		cas := hx.NewMemCAS()
 		build := hx.NewVersion(p, hx.VersionOpts{CAS: cas})
@@ -107,6 +110,10 @@ func checkC15(c *hx.Ctx) {
 		for k := 0; k < n; k++ {
 			t := txn.SidetreeTxn{Namespace: hx.Namespace, TransactionTime: uint64(100 + 10*k), TransactionNumber: uint64(r.Intn(9)),
 				ProtocolVersion: p.GenesisTime, CanonicalReference: fmt.Sprintf("canon-%d-%d", si, k), EquivalentReferences: []string{fmt.Sprintf("eq-%d-a", k), fmt.Sprintf("eq-%d-b", k)}}
+			if withAlt {
+				// the ledger names other nodes that hold the batch files: the first one is down, the second one mirrors the local CAS
+				t.AlternateSources = []string{"down", "mirror"}
+			}
 			switch r.Intn(8) {
 			case 0, 1:
 				t.EquivalentReferences = nil
@@ -116,7 +123,7 @@ func checkC15(c *hx.Ctx) {
 				t.CanonicalReference, t.EquivalentReferences = "", nil
 			}
 			pl := &txnPlan{Txn: t}
-			kind := hx.Pick(r, []string{"valid", "valid", "valid", "dup", "dup-in-files", "malformed-core-index", "malformed-anchor", "missing-file", "corrupt-file", "unknown-namespace", "unknown-version"})
+			kind := hx.Pick(r, []string{"valid", "valid", "valid", "dup", "dup-in-files", "malformed-core-index", "malformed-anchor", "missing-file", "corrupt-file", "corrupt-file", "unknown-namespace", "unknown-version"})
 			pl.Kind = kind
 			// a batch of 1-5 operations on distinct DIDs
 			var batch []*batchOp
@@ -272,7 +279,22 @@ func checkC15(c *hx.Ctx) {
 				case "corrupt-file":
 					u := hx.Pick(r, pl.Files)
 					orig := cas.M[u]
-					switch r.Intn(4) {
+					pick := r.Intn(8)
+					if pick >= 4 && r.Bool() {
+						u = strings.SplitN(info.AnchorString, ".", 2)[1] // the core index file
+						orig = cas.M[u]
+					}
+					switch pick {
+					case 4, 5, 6, 7: // a well-formed gzip stream whose content is the original JSON document followed by more bytes: not a JSON document
+						zr, zerr := gzip.NewReader(bytes.NewReader(orig))
+						if zerr != nil {
+							c.Inconclusive("batch file written by the handler is not gzip: %v", zerr)
+							return
+						}
+						plain, _ := io.ReadAll(zr)
+						plain = append(plain, hx.Pick(r, []string{`{"x":1}`, " garbage", "]", "\n{}", ` {"operations":{}}`, "\x00"})...)
+						cas.M[u] = gz(plain, gzip.DefaultCompression)
+						c.Count("corrupt_file_json_with_trailing_bytes")
 					case 0: // not gzip at all
 						cas.M[u] = append([]byte("corrupt"), orig...)
 					case 1: // intact gzip header, body cut off
@@ -332,6 +354,9 @@ func checkC15(c *hx.Ctx) {
 			runCAS := hx.NewMemCAS()
 			for u, b := range cas.M {
 				runCAS.M[u] = b
+				if withAlt {
+					runCAS.M["mirror|"+u] = b
+				}
 			}
 			failTxnAnchor := ""
 			if f.txn >= 0 {
@@ -355,7 +380,12 @@ func checkC15(c *hx.Ctx) {
 				}
 			}
 			tpOpts := []txnprocessor.Option{txnprocessor.WithUnpublishedOperationStore(unpub, []operation.Type{operation.TypeUpdate, operation.TypeCreate})}
-			v1 := hx.NewVersion(p, hx.VersionOpts{CAS: runCAS, Store: store, TxnProcOpts: tpOpts})
+			var provOpts []txnprovider.Opt
+			if withAlt {
+				provOpts = []txnprovider.Opt{txnprovider.WithSourceCASURIFormatter(func(uri, source string) (string, error) { return source + "|" + uri, nil })}
+				c.Count("runs_with_alternate_sources")
+			}
+			v1 := hx.NewVersion(p, hx.VersionOpts{CAS: runCAS, Store: store, TxnProcOpts: tpOpts, ProviderOpts: provOpts})
 			// a panic while reading a transaction would kill the observer goroutine (and this process): catch it at the provider
 			// boundary, report it, and let the run go on
 			v1.TxnProc = txnprocessor.New(&txnprocessor.Providers{OpStore: store, OperationProtocolProvider: &safeProvider{inner: v1.Provider, onPanic: func(anchor string, r interface{}) {
@@ -416,7 +446,7 @@ func checkC15(c *hx.Ctx) {
 				if f.put {
 					return pl.Txn.AnchorString == failTxnAnchor
 				}
-				if f.uri != "" {
+				if f.uri != "" && !withAlt { // with alternate sources the mirror serves the file the local CAS cannot deliver
 					for _, u := range pl.Files {
 						if u == f.uri {
 							return true // batches with identical content share content-addressed files
@@ -715,6 +745,8 @@ func checkC15(c *hx.Ctx) {
 			c.Sample(3, map[string]interface{}{"intake_steps": stepKinds(steps), "fault_plans": len(plansI)})
 		}
 	})
+	c.Floor("corrupt_file_json_with_trailing_bytes", 5)
+	c.Floor("runs_with_alternate_sources", 50)
 	c.Floor("runs:no-fault", 20)
 	c.Floor("runs:cas-read", 50)
 	c.Floor("runs:store-put", 20)
